@@ -127,7 +127,7 @@ func TestSystemPredicate(t *testing.T) {
 				if inbound {
 					tt = base.Inbound
 				}
-				res := rapid.SampledFrom([]string{"a", "b", "c"}).Draw(t, "res")
+				res := rapid.SampledFrom([]string{"a", "b", "c", base.TotalInBoundResourceName}).Draw(t, "res") // the aggregate's own name is an ordinary resource name for callers
 				batch := uint32(rapid.IntRange(1, 3).Draw(t, "batch"))
 				// inbound aggregate per the reference: aligned 1 s window over 500 ms buckets
 				passTok := evs.Sum(model.Pass, now, 500, 1000)
